@@ -517,8 +517,8 @@ def dataEntry (cfg : Cfg) : P DataSegment := do
   match Reader.dataKinds.find? (fun r => r.1 = kind) with
   | none => P.fail E.invalidDataSectionKind
   | some (_, readMemoryIndex, readOffsetExpression, passive) => do
-    let mi ← if readMemoryIndex then u32 E.invalidDataSectionMemoryIndex else pure 0
-    let off ← if readOffsetExpression then sliced (constExpr cfg E.invalidDataSectionOffsetExpression) else pure []
+    let mi ← (if readMemoryIndex then u32 E.invalidDataSectionMemoryIndex else pure 0)
+    let off ← (if readOffsetExpression then sliced (constExpr cfg E.invalidDataSectionOffsetExpression) else pure [])
     let bs ← bytesVec E.invalidDataSectionBytes
     pure { memoryIndex := mi, offset := off, bytes := bs, passive := passive }
 
